@@ -319,6 +319,59 @@ def late_params_case(ctx, rng):
              sample={"part": "header", "kind": "parameters set after construction", "late": {k: str(v)[:20] for k, v in late.items()}})
 
 
+def reused_options_case(ctx, rng):
+    """ONE options object the application keeps (logical type left UNSPECIFIED) used for several streams of different kinds,
+    one after the other: a Graph, then a Dataset (or the reverse), a triples generator, then a quads generator; optionally
+    switched to non-delimited between uses.  Every header must state what THAT stream is - never what the object was used for before."""
+    import dataclasses
+    integ = rng.choice(["rdflib", "generic"])
+    order = rng.choice([(3, 4), (4, 3), (3, 4, 3)])
+    cfg = {"integration": integ, "physical": 1, "logical": 0, "delimited": True, "preset": (rng.choice([8, 16, 64]), 8, 8),
+           "frame_size": 250, "generalized": False, "rdf_star": False, "ns": False, "stream_name": rng.choice(STREAM_NAMES)}
+    options = pj.make_options(cfg)
+    switch_at = rng.choice([None, None, 1])
+    for k, arity in enumerate(order):
+        if switch_at == k:
+            options.params = dataclasses.replace(options.params, delimited=False)
+        delimited = options.params.delimited
+        st = tuple([("iri", "http://e/s"), ("iri", "http://e/p"), ("bnode", "b")] + ([("iri", "http://e/g")] if arity == 4 else []))
+        how = rng.choice(["store", "flat"]) if delimited else "store"
+        out = io.BytesIO()
+        try:
+            if integ == "rdflib" and how == "store":
+                pj.rdflib_store_of([st], dataset=arity == 4).serialize(out, format="jelly", options=options)
+            elif integ == "rdflib":
+                rser.flat_stream_to_file(iter([T.stmt_to_rdflib(st)]), out, options=options)
+            elif how == "store" and delimited:
+                gser.grouped_stream_to_file(iter([pj.generic_sink_of([st])]), out, options=options)
+            else:
+                pj.write_frames(gser.flat_stream_to_frames(iter([T.stmt_to_generic(st)]), options=options), out, delimited)
+            o = next(r[1] for f in wire.dec_stream(out.getvalue(), delimited) for r in f["rows"] if r[0] == "options")
+        except Exception as e:  # noqa: BLE001
+            ctx.violation({"clause": "writer-raised", "cfg": cfg, "kind": "reused-options",
+                           "summary": f"{integ}: one options object (logical type unspecified) used for streams of arity {list(order)}: "
+                                      f"use {k + 1} ({how}, delimited={delimited}) raised {type(e).__name__}: {e}"})
+            return
+        ctx.observe("headers-compared")
+        ctx.observe("headers-of-streams-written-with-a-reused-options-object")
+        want_phys = 1 if arity == 3 else 2
+        ok_logical = {0, pj.FLAT_LOGICAL[want_phys]}
+        diffs = {}
+        if o["physical_type"] != want_phys:
+            diffs["physical_type"] = (o["physical_type"], want_phys)
+        if o["logical_type"] not in ok_logical:
+            diffs["logical_type"] = (o["logical_type"], sorted(ok_logical))
+        if o["stream_name"] != cfg["stream_name"] or o["max_name_table_size"] != cfg["preset"][0]:
+            diffs["name/table"] = ((o["stream_name"], o["max_name_table_size"]), (cfg["stream_name"], cfg["preset"][0]))
+        if diffs:
+            ctx.violation({"clause": "header-differs", "cfg": cfg, "diffs": T.to_json(diffs), "kind": "reused-options",
+                           "summary": f"{integ}: one options object (logical type unspecified) used for streams of arity {list(order)}: "
+                                      f"header of use {k + 1} (seen, expected): {diffs}"})
+            return
+    ctx.case(("reused-options", integ, order, switch_at, cfg["stream_name"], cfg["preset"]), True,
+             sample={"part": "header", "kind": "one options object for several streams", "arities": list(order)})
+
+
 def flow_object_pairs(ctx):
     """The logical type requested through an explicit flow OBJECT (SerializerOptions.flow): the header states the flow's
     logical type, and a flow whose type the specification forbids for the stream class is refused."""
@@ -471,6 +524,8 @@ def child_case(ctx, rng, k):
         flow_object_pairs(ctx)
         limits(ctx)
         strict_matrix(ctx)
+    elif k % 5 == 3:
+        reused_options_case(ctx, rng)
     else:
         header_case(ctx, rng)
 
@@ -490,6 +545,8 @@ def run_shard(ctx):
     while not ctx.out_of_time():
         if i % 6 == 5:
             late_params_case(ctx, ctx.rng(i))
+        elif i % 6 == 2:
+            reused_options_case(ctx, ctx.rng(i))
         else:
             header_case(ctx, ctx.rng(i))
         i += 1
